@@ -42,6 +42,7 @@ def LCall(r, fn, main=".", add="", carg=None):
 def VCall(r, n, main=".", add="", carg=None):
     return {"t": "vcall", "r": r if r is not None else NONE, "n": n, "main": main, "add": add, "carg": carg if carg is not None else NONE}
 def Try(r, fn, acc): return {"t": "try", "r": r, "fn": fn, "acc": acc}
+def NilNew(): return {"t": "nilnew"}                 # Nil.new: a nil that is not the literal's object
 def View(base, els): return {"t": "view", "base": base, "els": els}     # base.bear({_iter: m{els._iter}}): a descendant with an iterator of its own
 def Raw(s): return {"t": "rawsrc", "s": s}           # outside PanEval (unsupported), printed verbatim
 def Jump(k, x, g=None): return {"t": "jump", "k": k, "x": x, "g": g if g is not None else NONE}
@@ -79,6 +80,8 @@ def src(e):
         return "{" + ", ".join(f"{p['k']}: {src(p['v'])}" for p in e["ps"]) + "}"
     if t == "range":
         return "(" + ":".join(src(x) for x in (e["a"], e["b"], e["c"])) + ")"
+    if t == "nilnew":
+        return "Nil.new"
     if t == "view":
         return f"{src(e['base'])}.bear({{_iter: m{{{src(e['els'])}._iter}}}})"
     if t == "estr":
